@@ -969,9 +969,15 @@ class Driver:
         return [o[i], o[-2 + int(rng.integers(0, 2))]]
 
     def drop_caches(self, which):
+        """drops cached tables of the composite system: all of the group, or (rotating) ONE of them only - a table that is
+        restored from a surviving sibling table instead of being recomputed has to come out the same"""
         c = self.c_sys
-        for nm in which:
+        n = self._drops = getattr(self, "_drops", -1) + 1
+        pat = n % (len(which) + 1)
+        chosen = list(which) if pat == 0 else [which[pat - 1]]
+        for nm in chosen:
             getattr(c, nm)()
+        self.ctx.count("cache-drop:" + ("group" if pat == 0 else "single-table"))
 
     # -- history plumbing
     def prov(self, what, fn, *a, **kw):
